@@ -14,11 +14,19 @@ import (
 
 var (
 	regFlags         = regexp.MustCompile(`flags=\(([^)]+)\)`)
-	regProfileHeader = regexp.MustCompile(` {\n`)
+	regProfileHeader = regexp.MustCompile(`[\t ]?{\n`)
 
 	// regBlockHeader matches the header line of a profile, a sub-profile or a hat
-	regBlockHeader = regexp.MustCompile(`(?m)^[\t ]*(profile[\t ]|hat[\t ]|\^)[^\n]*{\n`)
+	// (the profile keyword is optional: any line that opens a block, comments excepted)
+	regBlockHeader = regexp.MustCompile(`(?m)^[\t ]*[^#\s][^\n]*{\n`)
 )
+
+// splitFlags splits a flag list: AppArmor separates flags by commas and/or blanks
+func splitFlags(flags string) []string {
+	return strings.FieldsFunc(flags, func(r rune) bool {
+		return r == ',' || r == ' ' || r == '\t'
+	})
+}
 
 type Complain struct {
 	prebuild.Base
@@ -45,7 +53,7 @@ func (b Complain) Apply(opt *Option, profile string) (string, error) {
 	flags := []string{}
 	matches := regFlags.FindStringSubmatch(profile)
 	if len(matches) != 0 {
-		flags = strings.Split(matches[1], ",")
+		flags = splitFlags(matches[1])
 		if slices.Contains(flags, "complain") {
 			return profile, nil
 		}
